@@ -63,9 +63,12 @@ def construct(repo, cls_name, kwargs, x_shape=(4, 6),
 
 def build(repo, cls_name, kwargs, x_shape=(4, 6),
           image_data_format="channels_last", module=QMOD, x=None,
-          setup=None):
+          setup=None, after_construction=None):
   pe, obj = construct(repo, cls_name, kwargs, x_shape, image_data_format,
                       module, setup)
+  if after_construction is not None:
+    # e.g. module state changed between construction and the call
+    after_construction(pe, repo.module(module))
   try:
     out = pe.call(obj, [x if x is not None else pe.x_input()], {})
   except PyRaise as e:
